@@ -1038,8 +1038,16 @@ func c10r3(c *Ctx) {
 // passesUnder: under the assumption every successful return of the function is reached only through the instruction's
 // block; otherwise a description of the path that avoids it.
 func passesUnder(env *Env, in ssa.Instruction, assume []Fact) string {
-	blk := in.Block()
-	if blk == env.Fn.Blocks[0] {
+	return passesAnyUnder(env, []ssa.Instruction{in}, assume)
+}
+
+// passesAnyUnder: the same for a set of instructions (one of them lies on every path to a successful return).
+func passesAnyUnder(env *Env, ins []ssa.Instruction, assume []Fact) string {
+	blks := map[*ssa.BasicBlock]bool{}
+	for _, in := range ins {
+		blks[in.Block()] = true
+	}
+	if blks[env.Fn.Blocks[0]] {
 		return ""
 	}
 	cut := map[edge]bool{}
@@ -1055,8 +1063,10 @@ func passesUnder(env *Env, in ssa.Instruction, assume []Fact) string {
 			}
 		}
 	}
-	for _, p := range blk.Preds {
-		cut[edge{p, blk}] = true
+	for blk := range blks {
+		for _, p := range blk.Preds {
+			cut[edge{p, blk}] = true
+		}
 	}
 	rets := returnsOf(env.Fn)
 	returnsErr := false
@@ -1069,16 +1079,21 @@ func passesUnder(env *Env, in ssa.Instruction, assume []Fact) string {
 		if returnsErr && !isSuccessReturn(r) {
 			continue
 		}
-		if r.Block() == blk {
+		if blks[r.Block()] {
 			continue
 		}
+		rcut := cut
 		if returnsErr {
+			rcut = map[edge]bool{}
+			for ed := range cut {
+				rcut[ed] = true
+			}
 			for ed := range errorEdges(r) {
-				cut[ed] = true
+				rcut[ed] = true
 			}
 		}
-		if reachableAvoiding(env.Fn.Blocks[0], r.Block(), cut) {
-			return FuncName(env.Fn) + " reaches its return at " + env.P.InstrPos(r) + " (" + strings.Join(pathAvoiding(env.Fn.Blocks[0], r.Block(), cut), "→") + ")"
+		if reachableAvoiding(env.Fn.Blocks[0], r.Block(), rcut) {
+			return FuncName(env.Fn) + " reaches its return at " + env.P.InstrPos(r) + " (" + strings.Join(pathAvoiding(env.Fn.Blocks[0], r.Block(), rcut), "→") + ")"
 		}
 	}
 	return ""
